@@ -12,6 +12,8 @@ var textContentTypes = []string{"text", "json", "xml", "html", "java"}
 var autoDecodeText = autoDecodeContentTypeFunc(textContentTypes...)
 
 func autoDecodeContentTypeFunc(contentTypes ...string) func(contentType string) bool {
+	// keep a private copy: the caller may go on using the slice it passed
+	contentTypes = append([]string(nil), contentTypes...)
 	return func(contentType string) bool {
 		for _, ct := range contentTypes {
 			if strings.Contains(contentType, ct) {
